@@ -234,6 +234,48 @@ def select_extreme(ctx, g, t, cls):
     return "other", {}
 
 
+def buffer_full_matcher(buf_q):
+    """cmp matcher for "the bytes::Buffer is full": capacity() vs 0, or (inlined getter) end vs inner.len(). '=' = full."""
+    from engine.guards import chain
+
+    def cap(t):
+        return any(x[0] == "call" and x[1] == buf_q + "::capacity" for x in subterms(t))
+
+    def end(t):
+        return chain(t)[1][-1:] == ["end"]
+
+    def ilen(t):
+        return t[0] == "call" and t[1].rsplit("::", 1)[-1] == "len" and len(t[2]) == 1 and chain(t[2][0])[1][-1:] == ["inner"]
+
+    def m(a, b):
+        if cap(a) and b == ("const", 0):
+            return 1
+        if cap(b) and a == ("const", 0):
+            return -1
+        if end(a) and ilen(b):
+            return 1
+        if end(b) and ilen(a):
+            return -1
+        return 0
+    return m
+
+
+def atom_is_tested(ctx, g, matcher):
+    """some switch of g compares the two sides the cmp matcher recognises (else a table over that atom decides nothing)"""
+    T = ctx.T(g)
+    for bb in range(len(g.blocks)):
+        si = T.switch_info(bb)
+        if si is None:
+            continue
+        sc = si[0]
+        while sc[0] == "un" and sc[1] == "Not":
+            sc = sc[2]
+        p = _cmp_parts(sc)
+        if p is not None and matcher(p[1], p[2]):
+            return True
+    return False
+
+
 def ret_truths(ctx, W, g, val):
     """Truth values (True / False / None = undecided) a bool-returning body may return under the valuation."""
     from engine import query as Q
